@@ -355,8 +355,8 @@ func c36PlanOpts(f c36Flags, lang string, props c36Props) (c36Opts, bool) {
 		return c36Opts{lang: lang, indent: uint(ind), bn: f.bn == "1", ci: f.ci == "1", sr: f.sr == "1", kp: f.kp == "1",
 			fn: f.fn == "1", mn: f.mn == "1", si: f.s == "1" || f.mn == "1"}, true
 	}
-	if l := c36LangCanon(props.get("shell_variant")); l != "" {
-		lang = l
+	if l := c36LangCanon(props.get("shell_variant")); l != "" && l != "auto" {
+		lang = l // "auto" keeps the detected language
 	}
 	if lang == "auto" {
 		return c36Opts{}, false
@@ -951,8 +951,7 @@ func c36GenEditorConfig(r *Rand, root bool) string {
 			case 8:
 				sb.WriteString(r.Pick([]string{"simplify", "minify", "keep_padding"}) + " = " + r.Pick([]string{"true", "false"}) + "\n")
 			case 9:
-				// shell_variant = auto is excluded: known finding C36-shell-variant-auto-panic (shfmt panics)
-				sb.WriteString("shell_variant = " + r.Pick([]string{"bash", "posix", "sh", "mksh", "bats", "zsh", "bogus", "dash"}) + "\n")
+				sb.WriteString("shell_variant = " + r.Pick([]string{"bash", "posix", "sh", "mksh", "bats", "zsh", "bogus", "dash", "auto"}) + "\n")
 			case 10:
 				sb.WriteString("ignore = " + r.Pick([]string{"true", "true", "false"}) + "\n")
 			case 11:
